@@ -390,7 +390,7 @@ validate = Spec(
     params=dict(key='opaque:Key', client_host='str', client_addr='str', cert_principals='opt[seq[str]]', ca='bool'),
     classes={'SSHAuthorizedKeys': {'_user_entries': 'seq[opaque:Entry]', '_ca_entries': 'seq[opaque:Entry]'}},
     stubs={'entry.match_options': entry_match_options_stub},
-    loops={1: LoopSpec(invariant=validate_inv)},
+    loops={1: LoopSpec(invariant=validate_inv)}, modifies=[],
     ensures=[('first-match(key-equal-and-options-accept)', validate_post)])
 validate.opaque_attrs = {('Entry', 'key'): 'opt[opaque:Key]', ('Entry', 'options'): 'opaque:Options'}
 validate.no_replay = True
@@ -526,7 +526,7 @@ kh_match_select = TSpec(
     params=dict(host='str', addr='str', port='opt[int]'), classes={'SSHKnownHosts': KH_FIELDS},
     stubs={'ip_address': ip_address_stub, 'entry.matches': hostpat_matches_stub},
     loops={'g1': _kh_gen},
-    requires=kh_no_empty_name,
+    requires=kh_no_empty_name, modifies=[],
     region=lambda fn: fn.body[:_kh_cut(fn)],
     ensures=[('selected==exact(name)+exact(addr)+matching-patterns',
               lambda c: _lz(c, c.localv('matches'), 'seq[' + ENTRY_T + ']') == kh_selected(c))],
@@ -563,7 +563,7 @@ kh_match_classify = TSpec(
     PROP, 'known_hosts', 'SSHKnownHosts._match', self_class='SSHKnownHosts',
     params=dict(host='str', addr='str', port='opt[int]'), classes={'SSHKnownHosts': KH_FIELDS},
     loops={1: LoopSpec(invariant=kh_class_inv, lemmas=kh_class_lemmas)},
-    local_types=dict(zip(KH_LOCALS, KH_RESULT_T)),
+    local_types=dict(zip(KH_LOCALS, KH_RESULT_T)), modifies=[],
     region=lambda fn: fn.body[_kh_cut(fn):], setup=_kh_classify_setup,
     ensures=[(n.replace('_', '-') + '==selected-entries-of-that-class', kh_classify_post(i))
              for i, n in enumerate(KH_LOCALS)],
@@ -611,7 +611,8 @@ def kh_fallback_post(i):
 kh_match_public = Spec(
     PROP, 'known_hosts', 'SSHKnownHosts.match', self_class='SSHKnownHosts',
     params=dict(host='str', addr='str', port='opt[int]'), classes={'SSHKnownHosts': KH_FIELDS},
-    stubs={'self._match': _match_call_stub}, requires=kh_no_empty_name,
+    stubs={'self._match': _match_call_stub}, requires=kh_no_empty_name, modifies=[],
+    returns='tuple[' + ','.join(KH_RESULT_T) + ']',
     ensures=[(n.replace('_', '-') + '(port-form-else-plain-fallback)', kh_fallback_post(i))
              for i, n in enumerate(KH_LOCALS)],
     raises={'ValueError': _KH_RAISES_VALUE,
@@ -658,7 +659,7 @@ def add_exact_lemmas(c):
 
 add_exact = Spec(
     PROP, 'known_hosts', 'SSHKnownHosts._add_exact', self_class='SSHKnownHosts',
-    params=dict(pattern='str', entry=ENTRY_T), classes={'SSHKnownHosts': KH_FIELDS},
+    params=dict(pattern='str', entry=ENTRY_T), classes={'SSHKnownHosts': KH_FIELDS}, modifies=['_exact_entries'],
     loops={1: LoopSpec(invariant=lambda c: z3.And(add_exact_state(c, c.extra['iter'].z, c.extra['i']),
                                                   add_exact_indexed(c, c.extra['iter'].z, c.extra['i']),
                                                   kh_no_empty_name(c, new=True)),
@@ -700,7 +701,7 @@ plain_ctor_stub.spec_getter = lambda: plain_init
 
 add_pattern = Spec(
     PROP, 'known_hosts', 'SSHKnownHosts._add_pattern', self_class='SSHKnownHosts',
-    params=dict(pattern='str', entry=ENTRY_T), classes={'SSHKnownHosts': KH_FIELDS},
+    params=dict(pattern='str', entry=ENTRY_T), classes={'SSHKnownHosts': KH_FIELDS}, modifies=['_pattern_entries'],
     stubs={'_HashedHost': hashed_ctor_stub, '_PlainHost': plain_ctor_stub},
     ensures=[('appended(hashed-matcher-iff-leading-bar)', lambda c: c.new('_pattern_entries') == z3.Concat(
         c.old('_pattern_entries'), z3.Unit(F.PE.constructor(0)(
@@ -791,7 +792,10 @@ hashed_init = Spec(
     ensures=[('magic-1-and-salt-hash-base64-decoded', lambda c: z3.And(
         hashed_wellformed(c.arg('pattern')),
         c.new('_salt') == b64(hashed_fields(c.arg('pattern'))[1]),
-        c.new('_hosthash') == b64(hashed_fields(c.arg('pattern'))[2])))],
+        c.new('_hosthash') == b64(hashed_fields(c.arg('pattern'))[2]))),
+        # the same facts one by one (cheap to refute individually)
+        ('three-fields', lambda c: z3.Length(hashed_fields(c.arg('pattern'))) == 3),
+        ('hash-type-is-1(HMAC-SHA1)', lambda c: hashed_fields(c.arg('pattern'))[0] == z3.StringVal('1'))],
     raises={'ValueError': lambda c: z3.Not(hashed_wellformed(c.arg('pattern')))}, **_HH)
 
 hashed_matches = Spec(
@@ -1028,8 +1032,10 @@ kh_load = Spec(
     globals={'_x509_available': VBool(X509)},
     stubs=dict(KH_IMPORT_STUBS, **{'self._add_pattern': _add_log_stub(True, True),
                                    'self._add_exact': _add_log_stub(False, False)}),
-    loops={1: LoopSpec(header='for line in known_hosts.splitlines()', invariant=kh_load_inv, lemmas=kh_load_lemmas,
-                       modifies=['ghost_added'])},
+    loops={1: LoopSpec(invariant=kh_load_inv, lemmas=kh_load_lemmas, modifies=['ghost_added'])},
+    # per-line locals (None at the start of every iteration in the real code): havocked at the loop cut
+    local_types={'key': 'opt[opaque:Key]', 'cert': 'opt[opaque:Cert]', 'subject': 'opt[opaque:Subj]',
+                 'marker': 'opt[str]'},
     ensures=[('one-index-op-per-parsable-line(skip+routing)',
               lambda c: c.new('ghost_added') == z3.Concat(
                   c.old('ghost_added'), F.kh_file(F.splitlines(c.arg('known_hosts')), X509))),
@@ -1098,8 +1104,7 @@ def ak_load_raises(c):
 ak_load = Spec(
     PROP, 'auth_keys', 'SSHAuthorizedKeys.load', self_class='SSHAuthorizedKeys', params=dict(authorized_keys='str'),
     classes={'SSHAuthorizedKeys': AK_FIELDS}, stubs={'_SSHAuthorizedKeyEntry': ak_entry_ctor_stub},
-    loops={1: LoopSpec(header='for line in authorized_keys.splitlines()',
-                       invariant=lambda c: ak_load_state(c, c.extra['iter'].z, c.extra['i']),
+    loops={1: LoopSpec(invariant=lambda c: ak_load_state(c, c.extra['iter'].z, c.extra['i']),
                        lemmas=ak_load_lemmas, modifies=AK_LISTS)},
     ensures=[('entries-by-class-in-file-order(bad-keys-skipped)',
               lambda c: ak_load_state(c, _ak_lines(c), z3.Length(_ak_lines(c)))),
@@ -1181,14 +1186,7 @@ def ake_parse_stub(cx):
             Out(exc=VExc('ValueError'), assume=[z3.Not(opts_ok(t))], event=ev)]
 
 
-def ake_super_init_stub(cx):
-    m = cx.fresh('dict[str,pyobj]', 'empty_options')
-    k = z3.String(fresh_name('k'))
-    return [Out(sets={'options': m}, assume=[z3.ForAll([k], z3.Not(z3.Select(m.dom, k)))])]
-
-
 ake_import_stub.modifies = ake_parse_stub.modifies = ()
-ake_super_init_stub.modifies = ('options',)
 
 
 def ake_init_post(c):
@@ -1205,12 +1203,24 @@ def ake_init_post(c):
                   opts_ok(line), importable(rest_of(line)) == 0)
 
 
+def ake_own_options(c):
+    """'without affecting any other line': every entry starts from its OWN empty option map (the parse / import
+    stubs here do not add to it, so it must still be that new, empty dict object)"""
+    v = c.newv('options')
+    cell = c.new_state.heap.get(v.addr) if isinstance(v, VRef) else None
+    fresh = isinstance(v, VRef) and v.addr not in c.old_state.heap
+    return z3.BoolVal(bool(fresh and isinstance(cell, VDict) and not cell.items))
+
+
 ake_init = Spec(
     PROP, 'auth_keys', '_SSHAuthorizedKeyEntry.__init__', self_class='_SSHAuthorizedKeyEntry',
     params=dict(line='str'), classes={'_SSHAuthorizedKeyEntry': AKE_FIELDS},
-    stubs={'super': lambda cx: cx.ex.self_ref, 'super().__init__': ake_super_init_stub,
+    # OptionsParser.__init__ (two lines, in /repo) is executed from its real source, not assumed
+    inline={'super().__init__': ('misc', 'OptionsParser.__init__')},
+    stubs={'super': lambda cx: cx.ex.self_ref,
            'self._import_key_or_cert': ake_import_stub, 'self._parse_options': ake_parse_stub},
-    ensures=[('key-first-else-options-then-key', ake_init_post)],
+    ensures=[('key-first-else-options-then-key', ake_init_post),
+             ('options-are-a-new-empty-dict-of-this-entry', ake_own_options)],
     raises={'KeyImportError': lambda c: z3.And(importable(c.arg('line')) == 1, opts_ok(c.arg('line')),
                                                importable(rest_of(c.arg('line'))) == 1),
             'ValueError': lambda c: z3.Or(importable(c.arg('line')) == 2,
@@ -1434,13 +1444,143 @@ validate_x509 = Spec(
     params=dict(cert='opaque:Chain', client_host='str', client_addr='str'),
     classes={'SSHAuthorizedKeys': {'_x509_entries': 'seq[opaque:Entry]'}},
     stubs={'entry.match_options': entry_match_options_x_stub},
-    loops={1: LoopSpec(invariant=validate_x509_inv)},
+    loops={1: LoopSpec(invariant=validate_x509_inv)}, modifies=[],
     ensures=[('first-x509-entry-that-applies-and-whose-options-accept', validate_x509_post)])
 validate_x509.opaque_attrs = {('Entry', 'cert'): 'opt[opaque:Cert]', ('Entry', 'options'): 'opaque:Options',
                               ('Cert', 'key'): 'opaque:Key', ('Cert', 'subject'): 'opaque:X509Name',
                               ('Chain', 'key'): 'opaque:Key', ('Chain', 'subject'): 'opaque:X509Name',
                               ('Chain', 'user_principals'): 'seq[str]'}
 validate_x509.no_replay = True
+
+
+# ----------------------------------------------------------------------------- pattern.py: WildcardPatternList
+def wildname_ctor_stub(cx):
+    """WildcardPattern(text): the contract proved for _BaseWildcardPattern.__init__ (wildcard_init)"""
+    ref = cx.ex.new_object(cx.st, 'WildcardPattern', 'wild')
+    pat = cx.ex.get_field(cx.st, ref, '_pattern')
+    return [Out(ret=ref, assume=[pat.z == F.esc(cx.args[0].z)])]
+
+
+wildname_ctor_stub.modifies = ()
+wildname_ctor_stub.spec_getter = lambda: wildcard_init
+
+
+def _name_build_post(c):
+    r = c.result_v
+    return z3.And(z3.BoolVal(isinstance(r, VRef) and c.new_state.rec(r).cls == 'WildcardPattern'),
+                  c.new('_pattern', r) == F.esc(c.arg('pattern')))
+
+
+name_build_pattern = Spec(
+    PROP, 'pattern', 'WildcardPatternList.build_pattern', self_class='WildcardPatternList',
+    params=dict(pattern='str'), classes={'WildcardPatternList': {}, 'WildcardPattern': {'_pattern': 'str'}},
+    stubs={'WildcardPattern': wildname_ctor_stub},
+    ensures=[('wildcard-matcher-of-exactly-the-item-text(case-preserved)', _name_build_post)])
+
+
+# ----------------------------------------------------------------------------- misc.py: ip_address / ip_network
+norm_ip = z3.Function('normalize_scoped_ip', StrS, StrS)        # misc._normalize_scoped_ip (getaddrinfo: external)
+SLASH = z3.StringVal('/')
+
+
+def _lib_ip_stub(kind):
+    def stub(cx):
+        """ipaddress.ip_network / ip_address(text): external; the object, or ValueError when the library rejects
+        the text.  Called strictly: one positional argument and nothing else (strict=False would accept
+        10.1.2.3/8, which OpenSSH rejects as an inconsistent address/mask)"""
+        cx.require('library-called-with-the-text-only(strict)', z3.BoolVal(len(cx.args) == 1 and not cx.kwargs))
+        t = cx.args[0].z
+        okf, valf, sort = (F.is_net, F.net_of, 'Net') if kind == 'net' else (F.is_ip, F.ip_of, 'IP')
+        ev = ('lib', (cx.args[0],))
+        return [Out(ret=VOpaque(valf(t), sort), assume=[okf(t)], event=ev),
+                Out(exc=VExc('ValueError'), assume=[z3.Not(okf(t))], event=ev)]
+    stub.modifies = ()
+    return stub
+
+
+def _norm_stub(cx):
+    return VStr(norm_ip(cx.args[0].z))
+
+
+_norm_stub.modifies = ()
+
+
+def _net_text(a):
+    """address part normalised, '/masklen' part (if any) kept verbatim"""
+    k = z3.IndexOf(a, SLASH, z3.IntVal(0))
+    return z3.If(k >= 0, z3.Concat(norm_ip(z3.SubString(a, z3.IntVal(0), k)), z3.SubString(a, k, z3.Length(a) - k)),
+                 norm_ip(a))
+
+
+misc_ip_network = Spec(
+    PROP, 'misc', 'ip_network', params=dict(addr='str'),
+    stubs={'ipaddress.ip_network': _lib_ip_stub('net'), '_normalize_scoped_ip': _norm_stub},
+    ensures=[('the-library-network-of-address/masklen', lambda c: z3.And(
+        F.is_net(_net_text(c.arg('addr'))), c.result == F.net_of(_net_text(c.arg('addr')))))],
+    raises={'ValueError': lambda c: z3.Not(F.is_net(_net_text(c.arg('addr'))))}, returns='opaque:Net')
+misc_ip_address = Spec(
+    PROP, 'misc', 'ip_address', params=dict(addr='str'),
+    stubs={'ipaddress.ip_address': _lib_ip_stub('ip'), '_normalize_scoped_ip': _norm_stub},
+    ensures=[('the-library-address-of-the-text', lambda c: z3.And(
+        F.is_ip(norm_ip(c.arg('addr'))), c.result == F.ip_of(norm_ip(c.arg('addr')))))],
+    raises={'ValueError': lambda c: z3.Not(F.is_ip(norm_ip(c.arg('addr'))))}, returns='opaque:IP')
+misc_ip_network.no_replay = misc_ip_address.no_replay = True
+misc_ip_network.exact_str_find = True
+
+
+# ----------------------------------------------------------------------------- known_hosts.py: match_known_hosts
+cert_is_x509 = z3.Function('attr_Cert_is_x509', opaque_sort('Cert'), BoolS)
+
+
+def _mkh_ctx(c):
+    """the lookup object's view: receiver = the SSHKnownHosts argument"""
+    c2 = Ctx(c.ex, c.old_state, c.new_state, c.old_state.env['known_hosts'], result=c.result_v,
+             args={k: c.old_state.env[k] for k in ('host', 'addr', 'port')})
+    return c2
+
+
+def _mkh_match_stub(cx):
+    return contract_stub(lambda: kh_match_public)(cx)
+
+
+_mkh_match_stub.modifies = ()
+_mkh_match_stub.spec_getter = lambda: kh_match_public
+
+
+def mkh_inv(c):
+    it, i = c.extra['iter'].z, c.extra['i']
+    j = z3.Int(fresh_name('j'))
+    return z3.ForAll([j], z3.Implies(z3.And(j >= 0, j < i), cert_is_x509(it[j])))
+
+
+def _mkh_openssh_cert(c):
+    """some certificate entry the lookup selected (trusted or revoked; the lookup result is tied to the spec by the
+    ensures of SSHKnownHosts.match) is not an X.509 certificate"""
+    calls = c.calls('known_hosts.match')
+    if not calls or calls[-1].get('exc') is not None:
+        return z3.BoolVal(False)
+    ret = calls[-1]['ret']
+    both = z3.Concat(_lz(c, ret.items[3], KH_RESULT_T[3]), _lz(c, ret.items[4], KH_RESULT_T[4]))
+    if '__loop_i__' in c.new_state.env:
+        j = c.new_state.env['__loop_i__'].z          # the certificate the loop stopped at
+        return z3.And(j >= 0, j < z3.Length(both), z3.Not(cert_is_x509(both[j])))
+    return z3.BoolVal(False)
+
+
+match_known_hosts_obj = Spec(
+    PROP, 'known_hosts', 'match_known_hosts',
+    params=dict(known_hosts='obj:SSHKnownHosts', host='str', addr='str', port='opt[int]'),
+    classes={'SSHKnownHosts': KH_FIELDS},
+    stubs={'known_hosts.match': _mkh_match_stub},
+    loops={1: LoopSpec(invariant=mkh_inv)},
+    requires=lambda c: kh_no_empty_name(_mkh_ctx(c)),
+    ensures=[(n.replace('_', '-') + '(lookup-of-host-addr-AND-port)',
+              (lambda i: lambda c: kh_fallback_post(i)(_mkh_ctx(c)))(i)) for i, n in enumerate(KH_LOCALS)],
+    raises={'ValueError': lambda c: z3.Or(_KH_RAISES_VALUE(_mkh_ctx(c)), _mkh_openssh_cert(c)),
+            'AssertionError': lambda c: z3.Or(kh_bad_entry_in(kh_selected(_mkh_ctx(c), True)),
+                                              kh_bad_entry_in(kh_selected(_mkh_ctx(c), False)))})
+match_known_hosts_obj.opaque_attrs = {('Cert', 'is_x509'): 'bool'}
+match_known_hosts_obj.no_replay = True
 
 
 # ----------------------------------------------------------------------------- lemmas and bounded stand-ins
